@@ -877,11 +877,56 @@ def check_sat(formulas, timeout_ms=30000, tactics=None):
         c.n_queries += 1
         c.solver_s += dt
         if r == z3.unsat:
+            _cross_check(s)
             return Verdict("unsat", None, time.time() - t_all, tac)
         if r == z3.sat:
             return Verdict("sat", s.model(), time.time() - t_all, tac)
         last = Verdict("unknown", None, time.time() - t_all, tac, s.reason_unknown())
     return last
+
+
+CROSS = {"n": 0, "checked": 0, "agree": 0, "inconclusive": 0, "disagree": []}
+
+
+def _cross_check(solver):
+    """second opinion on a sample of `unsat` verdicts: the same assertions are exported as SMT-LIB2 and decided by the cvc5 binary (1.0.3).
+    A `sat` answer from cvc5 is a solver disagreement -> recorded, the check exits 2. Enabled by VERIF_CROSSCHECK=<every n-th unsat>."""
+    every = int(os.environ.get("VERIF_CROSSCHECK", "0") or 0)
+    if every <= 0:
+        return
+    CROSS["n"] += 1
+    if CROSS["n"] % every:
+        return
+    txt = solver.to_smt2()
+    if "(assert" not in txt:
+        return
+    ans = "unknown"
+    import subprocess
+    import sys
+    import tempfile
+
+    with tempfile.NamedTemporaryFile("w", suffix=".smt2", delete=False) as f:
+        f.write("(set-logic ALL)\n" + txt)
+        path = f.name
+    try:
+        # the cvc5 wheel (1.4.0, built with libpoly: `nl-cov` works there, not in the Debian binary), in a subprocess that can be killed
+        p = subprocess.run([sys.executable, os.path.join(os.path.dirname(__file__), "cvc5_check.py"), path, CTX.mode], capture_output=True, text=True, timeout=45)
+        out = p.stdout.strip().splitlines()
+        ans = out[-1].strip() if out else "unknown"
+    except Exception:  # noqa (timeout included)
+        ans = "unknown"
+    finally:
+        try:
+            os.unlink(path)
+        except OSError:
+            pass
+    CROSS["checked"] += 1
+    if ans == "unsat":
+        CROSS["agree"] += 1
+    elif ans == "sat":
+        CROSS["disagree"].append(txt[:300])
+    else:
+        CROSS["inconclusive"] += 1
 
 
 def prove(goal, timeout_ms=30000, extra=(), tactics=None):
